@@ -15,6 +15,7 @@ import (
 	"os"
 	"os/exec"
 	"path/filepath"
+	"runtime"
 	"strconv"
 	"strings"
 	"sync"
@@ -441,6 +442,7 @@ func runCase(root string, seq int, c Case, emit func(string)) error {
 		return err
 	}
 	got, err := bs.GetOne(ctx, Table, id)
+	letTheDoomedDie()
 	emit("get=" + classify(got, err, data))
 	fio.mu.Lock()
 	w := make([]string, len(fio.writes))
@@ -488,8 +490,20 @@ func runCase(root string, seq int, c Case, emit func(string)) error {
 	}
 	emit(">get2")
 	got, err = bs.GetOne(ctx, Table, id)
+	letTheDoomedDie()
 	emit("get2=" + classify(got, err, data))
 	return nil
+}
+
+// letTheDoomedDie: when a worker goroutine of GetOne panics, errgroup's deferred wg.Done() runs during
+// the unwinding, so GetOne's caller becomes runnable BEFORE the runtime kills the process; if the
+// panicking goroutine is descheduled at that moment (GC safepoint, preemption) the caller can run on and
+// even return a result from a process that is already dead. The child runs with GOMAXPROCS=1; yielding
+// here lets every other runnable goroutine (the dying one) run to its end before anything is reported.
+func letTheDoomedDie() {
+	for i := 0; i < 8; i++ {
+		runtime.Gosched()
+	}
 }
 
 // ChildMain is the extra sub-command "ecchild": case lines on stdin, one result line per case on stdout.
